@@ -5,6 +5,9 @@ import numpy as np
 import z3
 
 from ..core import rec
+from .. import jx as _jx
+
+_jx.DETERMINISTIC_FRESH = True   # two interpretations of the same computation must give identical terms here
 
 META = dict(
     files=["flowjax/wrappers.py", "flowjax/bijections/bijection.py", "flowjax/distributions.py", "flowjax/utils.py", "flowjax/train/data_fit.py", "flowjax/train/variational_fit.py",
